@@ -52,19 +52,24 @@ func main() {
 		enc.Encode(line{Ev: "reset", P: pn, Argv: [][]int{}})
 		var cmds [][]string
 		cmds = append(cmds, g.Prelude()...)
+		nsetup := len(cmds)
 		n := *steps/2 + g.R.Intn(*steps)
 		for i := 0; i < n; i++ {
 			cmds = append(cmds, g.Next())
 		}
-		for _, c := range cmds {
+		for ci, c := range cmds {
 			argv := impl.S(c...)
+			ev := "cmd"
+			if ci < nsetup {
+				ev = "setup"
+			}
 			now := time.Now().Unix()
 			rep := srv.Exec(argv)
 			av := make([][]int, len(argv))
 			for i, a := range argv {
 				av[i] = impl.B2I(a)
 			}
-			enc.Encode(line{Ev: "cmd", P: pn, Now: now, Argv: av, Reply: &rep})
+			enc.Encode(line{Ev: ev, P: pn, Now: now, Argv: av, Reply: &rep})
 			if rep.K == "panic" {
 				panics++
 				break // the keyspace may hold a lock / be inconsistent: end this programme
